@@ -14,8 +14,15 @@ mod verif_kani {
     use super::*;
     use crate::verif_spec::{any_str_exact, any_str_in, any_string, count_nl, fuses};
 
+    static mut FULL_ASCII: bool = false;
+    /// source text bytes: the 6-letter alphabet {-,[,=,a,\n,space}, or (thorough variants) every
+    /// printable ASCII byte and newline
     fn alpha(b: u8) -> bool {
-        matches!(b, b'-' | b'[' | b'=' | b'a' | b'\n' | b' ')
+        if unsafe { FULL_ASCII } {
+            (b >= 0x20 && b <= 0x7E) || b == b'\n'
+        } else {
+            matches!(b, b'-' | b'[' | b'=' | b'a' | b'\n' | b' ')
+        }
     }
     fn sym_alpha(b: u8) -> bool {
         matches!(b, b'-' | b'[' | b'=' | b'a' | b';' | b'.' | b'(')
@@ -295,6 +302,22 @@ mod verif_kani {
         }
     }
 
+    //@harness props=C03,C04,C18,C12 kind=bounded tier=thorough fns=TokenBasedLuaGenerator::write_trivia,is_single_line_comment bound="original text: exactly 4 bytes over ALL printable ASCII and newline; comment or whitespace trivia with symbolic range; previous output empty; commenting flag both values" budget=1500
+    //@ desc="write_trivia, full alphabet: same contract as the quick write_trivia obligations"
+    #[kani::proof]
+    #[kani::unwind(8)]
+    fn vk_tb_write_trivia_full_ascii_t() {
+        unsafe { FULL_ASCII = true };
+        let k: u8 = kani::any();
+        kani::assume(k < 4);
+        match k {
+            0 => check_write_trivia(true, false),
+            1 => check_write_trivia(true, true),
+            2 => check_write_trivia(false, false),
+            _ => check_write_trivia(false, true),
+        }
+    }
+
     // ---- write_token_options ----------------------------------------------------------------
     fn sub<'c>(code: &'c str) -> (usize, usize) {
         let s: usize = kani::any();
@@ -318,7 +341,10 @@ mod verif_kani {
 
     /// token WITHOUT trivia: symbolic byte range, symbolic recorded line, symbolic space_check
     fn check_write_token_plain(prior: &[u8], was_commenting: bool) {
-        let mut cbuf = [0u8; 3];
+        check_write_token_plain_n::<3>(prior, was_commenting)
+    }
+    fn check_write_token_plain_n<const CN: usize>(prior: &[u8], was_commenting: bool) {
+        let mut cbuf = [0u8; CN];
         let code = any_str_exact(&mut cbuf, alpha);
         let c = code.as_bytes();
         let mut g = gen_with(code, prior, was_commenting);
@@ -373,7 +399,7 @@ mod verif_kani {
             }
         }
         kani::cover!(mid == 3);
-        kani::cover!((mid == 0 || was_commenting) && content_len == 3);
+        kani::cover!((mid == 0 || was_commenting) && content_len == CN);
         core::mem::forget(g);
         core::mem::forget(token);
     }
@@ -384,6 +410,15 @@ mod verif_kani {
     #[kani::unwind(8)]
     fn vk_tb_write_token_plain() {
         check_write_token_plain(&[], false);
+    }
+
+    //@harness props=C03,C04,C12 kind=bounded tier=thorough fns=TokenBasedLuaGenerator::write_token_options bound="original text: exactly 8 bytes over ALL printable ASCII and newline; token without trivia, byte range symbolic; recorded line symbolic <= current line + 3; previous output empty; no open comment" budget=1200
+    //@ desc="write_token_options, deeper bound: same contract as vk_tb_write_token_plain"
+    #[kani::proof]
+    #[kani::unwind(14)]
+    fn vk_tb_write_token_plain_t() {
+        unsafe { FULL_ASCII = true };
+        check_write_token_plain_n::<8>(&[], false);
     }
 
     //@harness props=C03,C04,C18,C12 kind=bounded fns=TokenBasedLuaGenerator::write_token_options,TokenBasedLuaGenerator::uncomment bound="as vk_tb_write_token_plain, with a line comment open" budget=300
